@@ -129,6 +129,11 @@ func allFunctions(prog *ssa.Program) map[*ssa.Function]bool {
 				add(m)
 			case *ssa.Type:
 				if n, ok := m.Type().(*types.Named); ok && n.TypeParams().Len() > 0 {
+					// methods of a generic type: the generic bodies (type parameters
+					// are opaque sorts to the verifier)
+					for i := 0; i < n.NumMethods(); i++ {
+						add(prog.FuncValue(n.Method(i)))
+					}
 					continue
 				}
 				for _, t := range []types.Type{m.Type(), types.NewPointer(m.Type())} {
@@ -353,7 +358,7 @@ func cmdList(args []string) int {
 	}
 	var fns []*ssa.Function
 	for fn := range allFunctions(l.prog) {
-		if fn.Pkg == nil && fn.Parent() == nil {
+		if fn.Pkg == nil && fn.Parent() == nil && fn.Origin() == nil {
 			continue
 		}
 		p := pkgPathOf(fn)
